@@ -195,7 +195,37 @@ func (r *Decoder) parseRoot() error {
 	return r.decodeElement(ectx, ets, false)
 }
 
+// expandedAs is a checked type assertion on a value of the expanded document; the expansion algorithm
+// is expected to have validated the shapes, but a value of another shape is an error, not a panic.
+func expandedAs[T jsonldinternal.ExpandedValue](v jsonldinternal.ExpandedValue, key string) (T, error) {
+	t, ok := v.(T)
+	if !ok {
+		return t, fmt.Errorf("unexpected expanded value for %s: %T", key, v)
+	}
+
+	return t, nil
+}
+
+func expandedString(v jsonldinternal.ExpandedValue, key string) (string, *jsonldinternal.ExpandedScalarPrimitive, error) {
+	primitive, err := expandedAs[*jsonldinternal.ExpandedScalarPrimitive](v, key)
+	if err != nil {
+		return "", nil, err
+	}
+
+	stringValue, ok := primitive.Value.(inspectjson.StringValue)
+	if !ok {
+		return "", nil, fmt.Errorf("unexpected expanded value for %s: %T", key, primitive.Value)
+	}
+
+	return stringValue.Value, primitive, nil
+}
+
 func (r *Decoder) decodeElement(ectx evaluationContext, element jsonldinternal.ExpandedValue, dropValuePropertyRange bool) error {
+	if element == nil {
+		// expansion drops free-floating values by returning null
+		return nil
+	}
+
 	if elementArray, ok := element.(*jsonldinternal.ExpandedArray); ok {
 		for _, item := range elementArray.Values {
 			err := r.decodeElement(ectx, item, dropValuePropertyRange)
@@ -207,7 +237,10 @@ func (r *Decoder) decodeElement(ectx evaluationContext, element jsonldinternal.E
 		return nil
 	}
 
-	elementObject := element.(*jsonldinternal.ExpandedObject)
+	elementObject, err := expandedAs[*jsonldinternal.ExpandedObject](element, "element")
+	if err != nil {
+		return err
+	}
 
 	if ectx.ActiveProperty != nil {
 		// hacky to drop outer document container
@@ -219,7 +252,10 @@ func (r *Decoder) decodeElement(ectx evaluationContext, element jsonldinternal.E
 	}
 
 	if atList, ok := elementObject.Members["@list"]; ok {
-		listArray := atList.(*jsonldinternal.ExpandedArray)
+		listArray, err := expandedAs[*jsonldinternal.ExpandedArray](atList, "@list")
+		if err != nil {
+			return err
+		}
 
 		if len(listArray.Values) == 0 {
 			if ectx.ActiveProperty != nil {
@@ -325,13 +361,19 @@ func (r *Decoder) decodeElement(ectx evaluationContext, element jsonldinternal.E
 	var selfSubjectRange *cursorio.TextOffsetRange
 
 	if atID, ok := elementObject.Members["@id"]; ok {
-		valuePrimitive := atID.(*jsonldinternal.ExpandedScalarPrimitive)
+		valuePrimitive, err := expandedAs[*jsonldinternal.ExpandedScalarPrimitive](atID, "@id")
+		if err != nil {
+			return err
+		}
 
 		if _, ok := valuePrimitive.Value.(inspectjson.NullValue); ok {
 			return nil
 		}
 
-		idString := valuePrimitive.Value.(inspectjson.StringValue).Value
+		idString, _, err := expandedString(atID, "@id")
+		if err != nil {
+			return err
+		}
 
 		if strings.HasPrefix(idString, "_:") {
 			selfSubject = ectx.global.bnStringFactory.NewStringBlankNode(idString[2:])
@@ -398,7 +440,10 @@ func (r *Decoder) decodeElement(ectx evaluationContext, element jsonldinternal.E
 	if atReverse, ok := elementObject.Members["@reverse"]; ok {
 		// TODO double reverse
 
-		reverseObject := atReverse.(*jsonldinternal.ExpandedObject)
+		reverseObject, err := expandedAs[*jsonldinternal.ExpandedObject](atReverse, "@reverse")
+		if err != nil {
+			return err
+		}
 
 		// [dpb] sort keys for deterministic iteration; not found in spec?
 		reverseKeys := slices.Collect(maps.Keys(reverseObject.Members))
@@ -425,7 +470,12 @@ func (r *Decoder) decodeElement(ectx evaluationContext, element jsonldinternal.E
 
 			nectx.Reverse = true
 
-			for _, item := range reverseObject.Members[key].(*jsonldinternal.ExpandedArray).Values {
+			reverseValues, err := expandedAs[*jsonldinternal.ExpandedArray](reverseObject.Members[key], key)
+			if err != nil {
+				return err
+			}
+
+			for _, item := range reverseValues.Values {
 				err := r.decodeElement(nectx, item, false)
 				if err != nil {
 					return err
@@ -435,9 +485,26 @@ func (r *Decoder) decodeElement(ectx evaluationContext, element jsonldinternal.E
 	}
 
 	if atType, ok := elementObject.Members["@type"]; ok {
-		for _, typeValue := range atType.(*jsonldinternal.ExpandedArray).Values {
-			typePrimitive := typeValue.(*jsonldinternal.ExpandedScalarPrimitive)
-			typeString := typePrimitive.Value.(inspectjson.StringValue)
+		typeValues, err := expandedAs[*jsonldinternal.ExpandedArray](atType, "@type")
+		if err != nil {
+			return err
+		}
+
+		for _, typeValue := range typeValues.Values {
+			typePrimitive, err := expandedAs[*jsonldinternal.ExpandedScalarPrimitive](typeValue, "@type")
+			if err != nil {
+				return err
+			}
+
+			if _, ok := typePrimitive.Value.(inspectjson.NullValue); ok {
+				// a type which did not expand to an IRI (such as a keyword-like value) is ignored
+				continue
+			}
+
+			typeString, ok := typePrimitive.Value.(inspectjson.StringValue)
+			if !ok {
+				return fmt.Errorf("unexpected expanded value for @type: %T", typePrimitive.Value)
+			}
 
 			var effectiveObject rdf.ObjectValue
 
@@ -482,6 +549,11 @@ func (r *Decoder) decodeElement(ectx evaluationContext, element jsonldinternal.E
 		if !validGraphName {
 			// TODO warn
 		} else {
+			graphValues, err := expandedAs[*jsonldinternal.ExpandedArray](atGraph, "@graph")
+			if err != nil {
+				return err
+			}
+
 			nectx := ectx
 			nectx.ActiveGraph = ectx.ActiveSubject.(rdf.GraphNameValue)
 			nectx.ActiveGraphRange = ectx.ActiveSubjectRange
@@ -491,7 +563,7 @@ func (r *Decoder) decodeElement(ectx evaluationContext, element jsonldinternal.E
 			nectx.ActivePropertyRange = nil
 			nectx.CurrentContainer = nil
 
-			for _, item := range atGraph.(*jsonldinternal.ExpandedArray).Values {
+			for _, item := range graphValues.Values {
 				err := r.decodeElement(nectx, item, false)
 				if err != nil {
 					return err
@@ -501,13 +573,18 @@ func (r *Decoder) decodeElement(ectx evaluationContext, element jsonldinternal.E
 	}
 
 	if atIncluded, ok := elementObject.Members["@included"]; ok {
+		includedValues, err := expandedAs[*jsonldinternal.ExpandedArray](atIncluded, "@included")
+		if err != nil {
+			return err
+		}
+
 		nectx := ectx
 		nectx.ActiveSubject = nil
 		nectx.ActiveSubjectRange = nil
 		nectx.ActiveProperty = nil
 		nectx.ActivePropertyRange = nil
 
-		for _, item := range atIncluded.(*jsonldinternal.ExpandedArray).Values {
+		for _, item := range includedValues.Values {
 			err := r.decodeElement(nectx, item, false)
 			if err != nil {
 				return err
@@ -538,7 +615,12 @@ func (r *Decoder) decodeElement(ectx evaluationContext, element jsonldinternal.E
 			// nectx.ActivePropertyRange = member.Name.SourceOffsets
 		}
 
-		for _, item := range elementObject.Members[key].(*jsonldinternal.ExpandedArray).Values {
+		memberValues, err := expandedAs[*jsonldinternal.ExpandedArray](elementObject.Members[key], key)
+		if err != nil {
+			return err
+		}
+
+		for _, item := range memberValues.Values {
 			err := r.decodeElement(nectx, item, false)
 			if err != nil {
 				return err
@@ -553,10 +635,18 @@ func (r *Decoder) decodeValueNode(ectx evaluationContext, v *jsonldinternal.Expa
 	var lit rdf.Literal
 
 	if atType, ok := v.Members["@type"]; ok {
-		lit.Datatype = rdf.IRI(atType.(*jsonldinternal.ExpandedScalarPrimitive).Value.(inspectjson.StringValue).Value)
+		typeString, _, err := expandedString(atType, "@type")
+		if err != nil {
+			return err
+		}
+
+		lit.Datatype = rdf.IRI(typeString)
 	}
 
-	atValuePrimitive := v.Members["@value"].(*jsonldinternal.ExpandedScalarPrimitive)
+	atValuePrimitive, err := expandedAs[*jsonldinternal.ExpandedScalarPrimitive](v.Members["@value"], "@value")
+	if err != nil {
+		return err
+	}
 
 	if lit.Datatype == "@json" {
 		buf := &bytes.Buffer{}
@@ -585,7 +675,11 @@ func (r *Decoder) decodeValueNode(ectx evaluationContext, v *jsonldinternal.Expa
 				var litTagLanguage, litTagBaseDirection string
 
 				if atLangageKnown {
-					litTagLanguage = atLanguage.(*jsonldinternal.ExpandedScalarPrimitive).Value.(inspectjson.StringValue).Value
+					litTagLanguage, _, err = expandedString(atLanguage, "@language")
+					if err != nil {
+						return err
+					}
+
 					if !isWellFormedLiteralLanguageTag(litTagLanguage) {
 						// TODO warn
 						return nil
@@ -593,7 +687,10 @@ func (r *Decoder) decodeValueNode(ectx evaluationContext, v *jsonldinternal.Expa
 				}
 
 				if atDirectionKnown {
-					litTagBaseDirection = atDirection.(*jsonldinternal.ExpandedScalarPrimitive).Value.(inspectjson.StringValue).Value
+					litTagBaseDirection, _, err = expandedString(atDirection, "@direction")
+					if err != nil {
+						return err
+					}
 
 					// spec does not explicitly call for a well-formed base direction?
 					if !isWellFormedLiteralBaseDirectionTag(litTagBaseDirection) {
